@@ -42,6 +42,9 @@ func (r *rMem) clone() *rMem {
 type vPair struct {
 	m *Type
 	r *rMem
+	// a forked context never returns from, or pops the captured frame of, the activation it was
+	// forked from (the VM switches back to the parent first): depths inherited at the fork
+	baseFrames, baseClo int
 }
 
 func c18Compare(p vPair, label string) {
@@ -167,7 +170,7 @@ func VerifC18History() {
 			m.Push(value.NewInt(ip))
 			r.push(ip, false)
 		case 3: // return
-			vrt.Assume(len(r.fp) >= 2)
+			vrt.Assume(len(r.fp) >= 2 && len(r.fp)/2 > p.baseFrames)
 			ipv := m.IP()
 			vrt.Assert(ipv != nil, "return-address-present")
 			gv, ok := ipv.ToInt()
@@ -206,12 +209,13 @@ func VerifC18History() {
 			m.PushClosure(fr)
 			r.clo = append(r.clo, rf)
 		case 7:
-			vrt.Assume(len(r.clo) > 0)
+			vrt.Assume(len(r.clo) > p.baseClo)
 			m.PopClosure()
 			r.clo = r.clo[:len(r.clo)-1]
 		case 8: // fork a generator context with a fresh memory and continue in it
 			vrt.Assume(len(ctx) < 4)
-			ctx = append(ctx, vPair{m: m.Clone(nil), r: r.clone()})
+			rc := r.clone()
+			ctx = append(ctx, vPair{m: m.Clone(nil), r: rc, baseFrames: len(rc.fp) / 2, baseClo: len(rc.clo)})
 			cur = len(ctx) - 1
 		case 9: // abandon the current generator context and go back to main
 			vrt.Assume(cur != 0)
@@ -222,7 +226,8 @@ func VerifC18History() {
 			d := dead[len(dead)-1]
 			dead = dead[:len(dead)-1]
 			nm := m.Clone(ctx[d].m)
-			ctx[d] = vPair{m: nm, r: r.clone()}
+			rc := r.clone()
+			ctx[d] = vPair{m: nm, r: rc, baseFrames: len(rc.fp) / 2, baseClo: len(rc.clo)}
 			cur = d
 			vrt.Cover("recycled")
 		}
